@@ -1,7 +1,7 @@
 (* C02 — a pull never loses operations nor breaks an entity. Property theorems only. *)
 From Coq Require Import List Arith NArith Lia Bool.
 Import ListNotations.
-From GB Require Import Reach Sort Read Mono World Sync MergeProps.
+From GB Require Import Reach Sort Read Mono World Sync MergeProps SyncInv SyncMerge SyncPush SyncQuiesce.
 
 Theorem C02_monotone s h h' ops ops' : wf_store s -> reach s h' h ->
   read s h = Some ops -> read s h' = Some ops' -> sublist ops ops'.
@@ -28,3 +28,63 @@ Theorem C02_others_untouched w a w' x : inv w -> step w a = Some w' -> (x < leng
   read (st w') x = read (st w) x.
 Proof. exact (merge_leaves_others w a w' x). Qed.
 Print Assumptions C02_others_untouched.
+
+(* ---- session level: in every state satisfying the session invariant SyncInv.sinv (every state of every session does:
+   SyncInv.session_sinv) ---- *)
+
+(* the per-entity merge report agrees with what actually changed, and the entity handed back is the merged result:
+   New = the local ref did not exist and now is the fetched head; Nothing = the ref is unchanged (it already contained the
+   fetched head); Updated = the ref moved to a head that descends from BOTH the old local head and the fetched head, the
+   entity handed back is what that head reads as, and the operations read before (locally and on the fetched side) are
+   sublists of it; Invalid = nothing changed.  In every case no other ref of any replica, no tracking ref and no remote
+   ref moves. *)
+Theorem C02_report_truthful sw r e mid mau sw' ms ent : sinv sw -> (budget (ww sw) + 4 <= jump_limit)%N ->
+  sstep sw (EMerge r e mid mau) = Some (sw', OMerge ms ent) ->
+  let s := st (ww sw) in let s' := st (ww sw') in
+  let loc := alookup e (locals (ww sw) r) in let loc' := alookup e (locals (ww sw') r) in
+  tracks sw' = tracks sw /\ remote sw' = remote sw /\
+  (forall r' e', r' <> r \/ e' <> e -> alookup e' (locals (ww sw') r') = alookup e' (locals (ww sw) r')) /\
+  exists t, alookup e (track_of sw r) = Some t /\
+  match ms with
+  | MInvalid => sw' = sw
+  | MNew => loc = None /\ loc' = Some t /\ ent = read s t
+  | MNothing => exists h, loc = Some h /\ loc' = Some h /\ reach s h t /\ ent = None /\ s' = s
+  | MUpdated => exists h h', loc = Some h /\ loc' = Some h' /\ h' <> h /\
+      reach s' h' h /\ reach s' h' t /\ ent = read s' h' /\
+      exists oh ot on, read s h = Some oh /\ read s t = Some ot /\ read s' h' = Some on /\ sublist oh on /\ sublist ot on
+  end.
+Proof. exact (merge_spec sw r e mid mau sw' ms ent). Qed.
+Print Assumptions C02_report_truthful.
+
+(* a push succeeds exactly when every local head descends from (or equals) the remote head of its entity; then the remote
+   and the pusher's tracking refs of those entities become the local heads and nothing else changes; a refused push
+   changes nothing at all *)
+Theorem C02_push_spec sw r sw' o : sinv sw -> (r < length (reps (ww sw)))%nat -> sstep sw (EPush r) = Some (sw', o) ->
+  ww sw' = ww sw /\
+  ((o = ODone /\ ff_only sw r /\
+    (forall e, alookup e (remote sw') = orelse (alookup e (locals (ww sw) r)) (alookup e (remote sw))) /\
+    (forall e, alookup e (track_of sw' r) = orelse (alookup e (locals (ww sw) r)) (alookup e (track_of sw r))) /\
+    (forall r', r' <> r -> track_of sw' r' = track_of sw r'))
+   \/ (o = OFail /\ ~ ff_only sw r /\ sw' = sw)).
+Proof. exact (push_spec sw r sw' o). Qed.
+Print Assumptions C02_push_spec.
+
+(* a fetch makes the tracking ref of every entity the remote has equal to the remote's; nothing else changes *)
+Theorem C02_fetch_spec sw r sw' o : sinv sw -> (r < length (reps (ww sw)))%nat -> sstep sw (EFetch r) = Some (sw', o) ->
+  o = ODone /\ ww sw' = ww sw /\ remote sw' = remote sw /\
+  (forall e, alookup e (track_of sw' r) = orelse (alookup e (remote sw)) (alookup e (track_of sw r))) /\
+  (forall r', r' <> r -> track_of sw' r' = track_of sw r').
+Proof. exact (fetch_spec sw r sw' o). Qed.
+Print Assumptions C02_fetch_spec.
+
+(* non-vacuity: in a reachable session where replica 1 has two local commits on entity 0 and has fetched a concurrent commit
+   of replica 0, the hypotheses of C02_report_truthful hold and the merge reports Updated with the merged operations *)
+Example C02_report_example :
+  exists sw sw', srun (sw0 2) (SyncQuiesce.ex_prefix ++ [EPush 0; EFetch 1]) = Some sw /\
+    sinv sw /\ (budget (ww sw) + 4 <= jump_limit)%N /\
+    alookup 0 (locals (ww sw) 1) = Some 3 /\ alookup 0 (track_of sw 1) = Some 1 /\
+    sstep sw (EMerge 1 0 60 7) = Some (sw', OMerge MUpdated (Some [100; 201; 101; 202]%N)) /\
+    alookup 0 (locals (ww sw') 1) = Some 6.
+Proof. eexists. eexists. split; [vm_compute; reflexivity|].
+  split; [eapply (session_sinv 2 (SyncQuiesce.ex_prefix ++ [EPush 0; EFetch 1])); [vm_compute; reflexivity|vm_compute; discriminate]|].
+  split; [vm_compute; discriminate|]. repeat (split; [vm_compute; reflexivity|]). vm_compute; reflexivity. Qed.
